@@ -6,8 +6,25 @@
      - [flatten] + [canon]: explicit generated labels, then labels resolved to (position, time);
      - [sem]: the same canonical stream computed directly on the structured program.
    Executable definitions only; proofs are in Proofs/Structure*.v. *)
-From TV Require Import Base.I32 Model.Ops.
+From TV Require Import Base.I32.
 Open Scope nat_scope.
+
+(* BinOpKind.  (Model/Ops.v has the same enumeration, but importing it loads Flocq's binary32, which the
+   structuring passes have no use for and which dominates the run time of the correspondence shards.) *)
+Inductive binop :=
+| Add | Sub | Mul | Div | Rem | Eq | Ne | Lt | Le | Gt | Ge
+| BitOr | BitXor | BitAnd | LogicOr | LogicAnd | ShiftLeft | ShiftRightSigned | ShiftRightUnsigned.
+Definition all_binops : list binop :=
+  [Add; Sub; Mul; Div; Rem; Eq; Ne; Lt; Le; Gt; Ge; BitOr; BitXor; BitAnd; LogicOr; LogicAnd;
+   ShiftLeft; ShiftRightSigned; ShiftRightUnsigned].
+Definition binop_eqb (a b : binop) : bool :=
+  match a, b with
+  | Add, Add | Sub, Sub | Mul, Mul | Div, Div | Rem, Rem | Eq, Eq | Ne, Ne | Lt, Lt | Le, Le
+  | Gt, Gt | Ge, Ge | BitOr, BitOr | BitXor, BitXor | BitAnd, BitAnd | LogicOr, LogicOr
+  | LogicAnd, LogicAnd | ShiftLeft, ShiftLeft | ShiftRightSigned, ShiftRightSigned
+  | ShiftRightUnsigned, ShiftRightUnsigned => true
+  | _, _ => false
+  end.
 
 (* ------------------------------------------------------------------------------------------ *)
 (* syntax *)
